@@ -161,7 +161,7 @@ def witness_search(prop, unit_names, tier, seed, only_prop=True):
         out = os.path.join(WORK, 'replays', '%s.macro.witness' % prop)
         # C01 ('never a value stored for other arguments') is also witnessed by a C02 collision
         mprops = [prop] + (['C02'] if prop == 'C01' else [])
-        hist_iters = '60' if tier == 'quick' else '600'
+        hist_iters = '60' if tier == 'quick' else '400'
         reg_iters = '300' if tier == 'quick' else '20000'
         modes = [(['--macro-search'], 'MACRO-SEARCHED', 'see the replay file', 120)]
         if any(u.startswith('wrappers') for u in unit_names):
@@ -184,7 +184,7 @@ def witness_search(prop, unit_names, tier, seed, only_prop=True):
                 stats.append('macro: %s timed out' % mode[0])
         if not flavours:
             return dict(none=True, stats=stats, bound='macro-level scenarios (adversarial argument tuples of every built-in key shape, scripted Ok/Err, predicate scripts, manual polling) on functions decorated with the real macros; '
-                        '%s random macro-level histories per configuration (global/async x 6 policies x limit {2,3}, <= 14 operations, 6 keys, key listing after every step); %s random registry histories (<= 16 operations)' % (hist_iters, reg_iters))
+                        '%s random macro-level histories per configuration and pass (56 configurations: global/async x 6 policies x limit {2,3}; x {max_memory, max_memory + limit 3} with sized values; invalidate_on re-stores on unbounded / limit-3 caches; dense pass: key listing after every step, sparse pass: observation only through the history\'s own invalidations and a final listing; <= 14-24 operations, 6-10 keys); %s random registry histories (<= 16 operations)' % (hist_iters, reg_iters))
     for fl in flavours:
         out = os.path.join(WORK, 'replays', '%s.%s.history' % (prop, fl))
         cmd = [REPLAY_BIN, '--search', '--flavour', fl, '--iters', str(iters), '--seed', str(seed or 1), '--out', out]
